@@ -708,6 +708,26 @@ Definition C16_holds (op impl : sval) : holds :=
             end
         | _, _, _ => HTrivial
         end
+      else if String.eqb o "xrchunk" then
+        (* XR RLE chunk accessors (RFC 3611 4.1.1-4.1.3): the word rebuilt from Type() (0 run length, 1 bit vector,
+           2 terminating null), RunType() (only a run-length chunk has one) and Value() is the word itself *)
+        match as_N a, impl with
+        | Some c, SL [SN ty; rt; SN v] =>
+            let rebuilt :=
+              if ty =? 0 then
+                match rt with
+                | SL [SY k; SN r] => if String.eqb k "ok" && (r <? 2) && (v <? 16384) then Some (r * 16384 + v) else None
+                | _ => None
+                end
+              else if ty =? 1 then (if (v <? 32768) && is_class "err" rt then Some (32768 + v) else None)
+              else if ty =? 2 then (if (v =? 0) && is_class "err" rt then Some 0 else None)
+              else None in
+            match rebuilt with
+            | Some c' => if c' =? c then HPass else HFail [SY "xr_chunk_accessors"]
+            | None => HFail [SY "xr_chunk_accessors"]
+            end
+        | _, _ => HTrivial
+        end
       else HTrivial
   | SL [SY o; SY n; SB b] =>
       if String.eqb o "dec" then
